@@ -4,6 +4,8 @@
 package main
 
 import (
+	"strings"
+	"runtime"
 	"fmt"
 	"os"
 )
@@ -24,4 +26,23 @@ func main() {
 		os.Exit(2)
 	}
 	os.Exit(fn(os.Args[2:]))
+}
+
+// hangSignature looks at the stacks of all goroutines of a process that stopped making progress.  The one dead-lock the
+// pinned engine is known for (recorded finding): syncsaga's ReadyGroup takes its read lock twice in validate -> defValidate;
+// a writer (Add / updateState) arriving in between blocks the second RLock for ever, and whoever holds the engine lock
+// while calling into the group (batchAddPlayers -> playersAutoIn) keeps it.
+func hangSignature() string {
+	buf := make([]byte, 4<<20)
+	n := runtime.Stack(buf, true)
+	st := string(buf[:n])
+	if strings.Contains(st, "syncsaga.(*ReadyGroup).defValidate") && strings.Contains(st, "sync.(*RWMutex).RLock") {
+		return "syncsaga-recursive-rlock"
+	}
+	// ... or a sit-in whose signal was on its way into the group when it was re-armed: Ready() checked the channel, Stop()
+	// cleared it, the send blocks on a nil channel for ever
+	if strings.Contains(st, "chan send (nil chan)") && strings.Contains(st, "syncsaga.(*ReadyGroup).Ready") {
+		return "ready-on-nil-channel"
+	}
+	return ""
 }
